@@ -277,6 +277,39 @@ theorem C08_host_no_route_no_interface (fuel : Nat) (st : St) (n : Nat) (nd : No
     resolveOut (fuel + 1) st n dst = (st, none) := by
   simp only [resolveOut, hn, hoff, hk, hg]
 
+/-! ### the default gateway is never resolved through the default gateway (repair F-57) -/
+
+/-- `resolve_outbound_network_interface` for the host's OWN DEFAULT GATEWAY answers at once, whatever the fuel, without
+touching the state and without any nested look-up: an enabled interface on the gateway's network, else nothing.  Before the
+repair the second case asked ARP for the gateway's interface, ARP sent a request for the gateway, which came back here —
+without end (multi-homed host whose gateway-side NIC is disabled, gateway outside the host's subnets). -/
+theorem C08_gateway_resolved_without_recursion (st : St) (n : Nat) (nd : Node) (g : Ip)
+    (hn : st.node? n = some nd) (hk : nd.kind = .host) (hg : nd.gateway = some g) :
+    ∀ fuel, resolveOut (fuel + 1) st n g = (st, firstEnabledIn nd.ifaces g 0) := by
+  intro fuel
+  cases hfe : firstEnabledIn nd.ifaces g 0 with
+  | some i => simp only [resolveOut, hn, hfe]
+  | none => simp only [resolveOut, hn, hfe, hk, hg, beq_self_eq_true, if_true]
+
+/-- … so an ARP request for the default gateway from a host that has no enabled interface on the gateway's network sends
+nothing and changes nothing, at any fuel: the cycle `send_arp_request → resolve_outbound_network_interface →
+get_default_gateway_network_interface → get_arp_cache_network_interface → send_arp_request` of the call graph is cut. -/
+theorem C08_gateway_request_cut (st : St) (n : Nat) (nd : Node) (g t : Ip)
+    (hn : st.node? n = some nd) (hk : nd.kind = .host) (hg : nd.gateway = some g)
+    (hoff : firstEnabledIn nd.ifaces g 0 = none) (ht : t = g ∨ firstIn nd.ifaces t 0 = none) :
+    ∀ fuel, sendArpReq (fuel + 2) st n t = st := by
+  intro fuel
+  have hr := C08_gateway_resolved_without_recursion st n nd g hn hk hg fuel
+  rw [hoff] at hr
+  by_cases hc : (nd.arpGet t).isSome = true
+  · simp only [sendArpReq, hn, hc, if_true]
+  · have hc' : (nd.arpGet t).isSome = false := by simpa using hc
+    rcases ht with rfl | ht
+    · cases hfi : firstIn nd.ifaces t 0 with
+      | some i => simp only [sendArpReq, hn, hc', hfi, Option.isSome_some, if_true, hr, Bool.false_eq_true, if_false]
+      | none => simp only [sendArpReq, hn, hc', hfi, Option.isSome_none, hg, hr, Bool.false_eq_true, if_false]
+    · simp only [sendArpReq, hn, hc', ht, Option.isSome_none, hg, hr, Bool.false_eq_true, if_false]
+
 /-! ### routers forward along the route `find_best_route` selects -/
 
 /-- A router that holds a unicast frame for an off-link destination (no cache entry, no interface subnet contains it)
@@ -507,6 +540,13 @@ example : exR.arpGet 0xAC100005#32 = none ∧ firstIn exR.ifaces 0xAC100005#32 0
     (exR.ifaces[1]?.map (fun o => o.enabled && !o.inNet 0xAC100005#32)) = some true ∧
     findBestRoute exR.routes ipFar = .default 0x0A000002#32 ∧
     findBestRoute { exR.routes with default := none } ipFar = .noRoute := by decide
+/-- hypotheses of `C08_gateway_request_cut`: a dual-homed host whose NIC towards the gateway is disabled, the other up. -/
+def exDual : Node :=
+  { kind := .host, gateway := some ipGw,
+    ifaces := [{ mac := 1, ip := ipA, plen := 24, enabled := false, peer := some (1, 0) },
+               { mac := 3, ip := 0xC0A80205#32, plen := 24, enabled := true, peer := some (1, 1) }] }
+example : exDual.kind = .host ∧ exDual.gateway = some ipGw ∧ firstEnabledIn exDual.ifaces ipGw 0 = none ∧
+    firstIn exDual.ifaces ipFar 0 = none ∧ exDual.ifaces.any (·.enabled) = true := by decide
 example : hostArpNext exA ipFar false false = .go ipFar true false ∧ hostArpNext exA ipFar true false = .go ipGw true true := by
   decide
 
